@@ -406,6 +406,8 @@ fn framed_rows(alpha: &[TCell], fillers: &[TCell], w: usize, p: usize) -> Vec<Ve
 
 enum Job {
     Docs(Vec<TextDoc>),
+    /// a job of another shard (kept as a place holder so that the numbering is the same in every process)
+    NotMine,
     /// C15 framed rows of one (format, screen preparation): part k of FRAMED_PARTS, generated on demand
     Framed { ext: &'static str, prep: u8, part: usize, p: usize },
 }
@@ -431,15 +433,76 @@ struct Text {
     meta: Value,
 }
 
-fn chunk_docs(ext: &'static str, w: i32, rows: Vec<Vec<TCell>>, per: usize, opt: Opt, sauce: bool, what: &str, out: &mut Vec<TextDoc>) {
+/// Collects documents into jobs of 8. A worker keeps only the jobs of its own shard (the thorough tiers do not fit into the
+/// memory of 16 processes otherwise); the job numbering is the same in every process.
+struct DocSink {
+    shard: Option<(u64, u64)>,
+    pending: Vec<TextDoc>,
+    jobs: Vec<Job>,
+}
+
+impl DocSink {
+    fn new() -> DocSink {
+        // "--shard i --of n" of the worker command line; replay / describe runs keep everything
+        let args: Vec<String> = std::env::args().collect();
+        let get = |k: &str| args.iter().position(|a| a == k).and_then(|i| args.get(i + 1)).and_then(|v| v.parse::<u64>().ok());
+        let shard = match (get("--shard"), get("--of")) {
+            (Some(i), Some(n)) if n > 0 => Some((i, n)),
+            _ => None,
+        };
+        DocSink { shard, pending: Vec::new(), jobs: Vec::new() }
+    }
+    fn push(&mut self, d: TextDoc) {
+        let idx = self.jobs.len() as u64;
+        let mine = self.shard.map(|(i, n)| idx % n == i).unwrap_or(true);
+        if mine {
+            self.pending.push(d);
+        } else {
+            // count only
+            self.pending.push(TextDoc { ext: d.ext, w: 0, rows: Vec::new(), opt: d.opt, sauce: false, what: String::new() });
+        }
+        if self.pending.len() == 8 {
+            self.flush();
+        }
+    }
+    fn flush(&mut self) {
+        if self.pending.is_empty() {
+            return;
+        }
+        let idx = self.jobs.len() as u64;
+        let mine = self.shard.map(|(i, n)| idx % n == i).unwrap_or(true);
+        let docs = std::mem::take(&mut self.pending);
+        self.jobs.push(if mine { Job::Docs(docs) } else { Job::NotMine });
+    }
+    fn finish(mut self) -> Vec<Job> {
+        self.flush();
+        self.jobs
+    }
+}
+
+trait DocOut {
+    fn put(&mut self, d: TextDoc);
+}
+impl DocOut for Vec<TextDoc> {
+    fn put(&mut self, d: TextDoc) {
+        self.push(d);
+    }
+}
+impl DocOut for DocSink {
+    fn put(&mut self, d: TextDoc) {
+        self.push(d);
+    }
+}
+
+fn chunk_docs(ext: &'static str, w: i32, rows: Vec<Vec<TCell>>, per: usize, opt: Opt, sauce: bool, what: &str, out: &mut impl DocOut) {
     for c in rows.chunks(per) {
-        out.push(TextDoc { ext, w, rows: c.to_vec(), opt, sauce, what: what.to_string() });
+        out.put(TextDoc { ext, w, rows: c.to_vec(), opt, sauce, what: what.to_string() });
     }
 }
 
 fn build_c04(tier: &str) -> (Vec<Job>, Value) {
     let thorough = tier == "thorough";
-    let mut docs: Vec<TextDoc> = Vec::new();
+    let mut docs = DocSink::new();
     let mut counts = serde_json::Map::new();
     // (1) SAUCE width: all rows over A8 of width 1..=4 (1- and 2-row documents come from chunking by 1 and 2), near-default vectors
     let near = Opt::near(if thorough { 2 } else { 1 });
@@ -569,7 +632,7 @@ fn build_c04(tier: &str) -> (Vec<Job>, Value) {
         }
     }
     counts.insert("wide_sauce_framed_rows".into(), json!(n6));
-    let jobs = docs.chunks(8).map(|c| Job::Docs(c.to_vec())).collect();
+    let jobs = docs.finish();
     (jobs, Value::Object(counts))
 }
 
@@ -606,7 +669,7 @@ fn lead_ins(ext: &str) -> Vec<u32> {
 
 fn build_c15(tier: &str) -> (Vec<Job>, Value) {
     let thorough = tier == "thorough";
-    let mut docs: Vec<TextDoc> = Vec::new();
+    let mut docs = DocSink::new();
     let mut lazy: Vec<Job> = Vec::new();
     let mut counts = serde_json::Map::new();
     for ext in ["avt", "pcb", "msg", "an1", "asc", "ata"] {
@@ -700,7 +763,7 @@ fn build_c15(tier: &str) -> (Vec<Job>, Value) {
         }
         counts.insert(ext.to_string(), json!(n));
     }
-    let mut jobs: Vec<Job> = docs.chunks(8).map(|c| Job::Docs(c.to_vec())).collect();
+    let mut jobs: Vec<Job> = docs.finish();
     jobs.extend(lazy);
     (jobs, Value::Object(counts))
 }
@@ -721,11 +784,13 @@ impl Engine for Text {
                     run_doc(&d, &self.prop, ctx);
                 }
             }
+            Job::NotMine => panic!("job {idx} belongs to another shard"),
         }
     }
     fn describe(&self, idx: u64) -> Value {
         match &self.jobs[idx as usize] {
             Job::Docs(docs) => json!({"engine": "text-roundtrip", "idx": idx, "documents": docs.len(), "first": doc_json(&docs[0], Some(0)), "key": format!("text:{}", docs[0].ext)}),
+            Job::NotMine => json!({"engine": "text-roundtrip", "idx": idx, "key": "text"}),
             Job::Framed { ext, prep, part, p } => json!({"engine": "text-roundtrip", "idx": idx, "family": "prefix.filler.suffix rows", "format": ext, "screen_preparation": prep, "part": part, "of": FRAMED_PARTS, "prefix_suffix_max": p, "key": format!("text:{ext}")}),
         }
     }
